@@ -121,12 +121,30 @@ func genC17(seed uint64, tier string) *plan.Plan {
 	for i, v := range vals {
 		w.Ops = append(w.Ops, ent(plan.Op{K: "getv", Key: keys[i], Flag: true, Pattern: typeOf(v)}))
 	}
+	// overwrite and delete/rewrite part of the keys before the migration: the fragments that move
+	// then contain superseded versions (garbage) between the live entries
+	cur := append([]string(nil), vals...)
+	if r.Bool(700) {
+		for i := range vals {
+			switch x := r.Intn(100); {
+			case x < 35:
+				cur[i] = vals[r.Intn(len(vals))]
+				w.Ops = append(w.Ops, ent(plan.Op{K: "putv", Key: keys[i], Flag: true, Val: cur[i]}))
+			case x < 45:
+				cur[i] = vals[r.Intn(len(vals))]
+				w.Ops = append(w.Ops, ent(plan.Op{K: "delv", Key: keys[i], Flag: true}), ent(plan.Op{K: "putv", Key: keys[i], Flag: true, Val: cur[i]}))
+			}
+		}
+		for i, v := range cur {
+			w.Ops = append(w.Ops, ent(plan.Op{K: "getv", Key: keys[i], Flag: true, Pattern: typeOf(v)}))
+		}
+	}
 	mig := plan.Script{ID: 1, Kind: "ctl", Ops: []plan.Op{
 		{K: "ctl.join", M: n},
 		{K: "ctl.wait_stable", Dur: 120000, Dur2: 2000},
 	}}
 	rd := plan.Script{ID: 1, Kind: "ctl"}
-	for i, v := range vals {
+	for i, v := range cur {
 		op := plan.Op{K: "getv", Key: keys[i], Flag: true, Pattern: typeOf(v), Tag: Pick(r, "emb", "cc"), M: r.Intn(n + 1)}
 		rd.Ops = append(rd.Ops, op)
 	}
